@@ -126,6 +126,25 @@ def clause_welcome(prog, rep):
         ]
         for key, pred, txt in dec:
             rep.check(err_depends_on(prog, f, pred), "welcome-bound", "refuses/%s" % key, txt, "no error exit depends on the check that %s" % txt, f.loc())
+        # every encoding tag is inspected: inside the validator that raises InvalidWelcomeMessage, an error exit is control-dependent both on
+        # a tag being the `encoding` tag and on its value differing from "base64" (a helper that merely *finds* one valid tag is not enough:
+        # a second, conflicting encoding tag would go unnoticed)
+        vals = [g for g in prog.nontest_fns(("mdk_core",)) if not g.is_closure() and any(True for _ in g.aggregates("Error", "InvalidWelcomeMessage"))
+                and g.path in prog.extent(f)]
+        strict = False
+        for g in vals:
+            for eb in A.err_exit_blocks(g):
+                seen_consts = set()
+                for w in A.control_dependent_switches(g, eb):
+                    l = A._opl(g.term(w)["discr"])
+                    og = A.origins(prog, g, l, scope=None, max_frames=0)
+                    seen_consts |= set(k.get("str") for _, _, k in og.consts if isinstance(k, dict) and k.get("str"))
+                if {"encoding", "base64"} <= seen_consts:
+                    strict = True
+        rep.check(strict, "welcome-bound", "refuses/every-encoding-tag",
+                  "the welcome validator itself rejects any `encoding` tag whose value is not base64",
+                  "the welcome validator no longer rejects a non-base64 `encoding` tag by itself (it only looks for one acceptable tag): a rumor "
+                  "carrying conflicting encoding tags is accepted", f.loc())
 
 
 def clause_extension_wiring(prog, rep):
@@ -186,6 +205,20 @@ def clause_imeta(prog, rep):
     rep.floor("imeta-tables", "keys written by create_imeta_tag", len(wkeys), 6)
     rep.check(set(wkeys) <= rkeys, "imeta-tables", "written-keys-parsed", "every written key %s is understood by the parser" % sorted(set(wkeys)),
               "keys written but unknown to the parser: %s" % sorted(set(wkeys) - rkeys), w[0].loc())
+    # entries are written as "<key> <value>" where the value may itself contain spaces (file names): the parser must cut each
+    # entry at the FIRST space only
+    g0 = r[0]
+    spl = [c for c in g0.live_calls() if c.name == "splitn" and (c.krate in ("core", "alloc", "std"))]
+    okspl = False
+    for c in spl:
+        ints = [a["c"]["int"] for a in c.args if "c" in a and "int" in a["c"]]
+        if 2 in ints and 32 in ints:       # n = 2, separator ' '
+            okspl = True
+    bad = [c.name for c in g0.live_calls() if c.name in ("split_whitespace", "split_ascii_whitespace")]
+    rep.check(okspl and not bad, "imeta-tables", "entry-split-at-first-space",
+              "each entry is split with splitn(2, ' '): values containing spaces survive the round trip",
+              "imeta entries are not split at the first space only (%s): a value containing a space (file name, URL) is truncated when parsed back"
+              % (bad or "no splitn(2, ' ')"), g0.loc())
     # keys always written (dominating the final tag construction) = keys the parser requires
     f = w[0]
     always = set()
